@@ -140,10 +140,10 @@ def explore_c15(ctx, res, replay_ops=None):
     _cdrfile_common(ctx, res, replay_ops, want_spec=True)
 
 
-PROPS["C14"] = dict(lean=["ChfVerif.Props.C14"], explore=explore_c14, gen=[_gen_late("cdrfile", "CdrFileFacts.lean")],
+PROPS["C14"] = dict(lean=["ChfVerif.Props.C14"], explore=explore_c14, gen=[_gen_late("cdrfile", "CdrFileFacts.lean"), _gen_late("asnglobals", "AsnGlobals.lean")],
                     trusted=["os.WriteFile/os.ReadFile, encoding/binary (modelled; how the destination is opened is regenerated by go/ast: "
                              "harness/cmd/cdrfilefacts.go)"])
-PROPS["C15"] = dict(lean=["ChfVerif.Props.C15"], explore=explore_c15, gen=[_gen_late("cdrfile", "CdrFileFacts.lean")],
+PROPS["C15"] = dict(lean=["ChfVerif.Props.C15"], explore=explore_c15, gen=[_gen_late("cdrfile", "CdrFileFacts.lean"), _gen_late("asnglobals", "AsnGlobals.lean")],
                     trusted=["the file system is modelled (Model/CdrFile.lean writeOver); how Encoding opens its destination is regenerated "
                              "by go/ast (harness/cmd/cdrfilefacts.go)","Spec/TS32297.lean is my transcription of TS 32.297 clause 6.1 as restated in C15",
                              "os.WriteFile, encoding/binary (modelled)"])
